@@ -198,10 +198,16 @@ def one(rec, t, ti, name, obj, j, rng):
             ss = invalidate.sites(it, obj)
             bad = invalidate.apply(it, obj, ss[j % len(ss)], None) if ss else None
             if bad is not None:
+                bad_inst = br.build(bad)
+                shown_bad = repr(bad_inst)
                 try:
-                    C.serialize(w3, br.build(bad))
+                    C.serialize(w3, bad_inst)
                 except Exception:
                     rec.count("refused-objects-in-between")
+                # whether it was refused or not: serializing is reading
+                if repr(bad_inst) != shown_bad:
+                    case["xml"] = t.files
+                    rec.violation("changed-by-public-method", "tree %d %s: serialize() changed the instance it was given (an object the declaration forbids): %s -> %s" % (ti, name, shown_bad[:150], repr(bad_inst)[:150]), case)
         except Exception:
             pass
         n3 = len(w3)
